@@ -92,6 +92,30 @@ Theorem C18_nifti_read_itk_scalar_partial :
 Proof. exact nifti_read_itk_scalar. Qed.
 Print Assumptions C18_nifti_read_itk_scalar_partial.
 
+(* conditional forms (what a repaired writer / reader has to satisfy; they hold for every layout, channel count and size):
+   reading inverts the LPS -> RAS affine for every accepted ITK layout, and the native round trip is exact whenever the
+   writer hands nibabel a modelled layout with the RAS affine of the grid and the reader accepts that layout *)
+Theorem C18_nifti_read_itk_conditional :
+  forall (K : fld), is_field K -> forall (A : Type) (D : nat) (x : image K A),
+  D = 2%nat \/ D = 3%nat -> wf_image D x -> In (i_type x) torch_types ->
+  Forall (fun s => s <> 0) (i_spacing x) ->
+  nifti_r_status (if Nat.eqb (i_chan x) 1 then LScalar else LItkVector) D (i_chan x) = ROk ->
+  read_nifti (itk_write_nii D x) = Some x.
+Proof. exact nifti_read_itk_cond. Qed.
+Print Assumptions C18_nifti_read_itk_conditional.
+
+Theorem C18_nifti_roundtrip_conditional :
+  forall (K : fld), is_field K -> forall (A : Type) (L : nlayout) (D : nat) (x : image K A),
+  D = 2%nat \/ D = 3%nat -> wf_image D x -> In (i_type x) torch_types ->
+  Forall (fun s => s <> 0) (i_spacing x) ->
+  nifti_w_status D (i_chan x) = ROk -> nifti_w_layout D (i_chan x) = Some L ->
+  sel D (gen_nifti_w_affine_2 (i_origin x) (i_spacing x) (i_dir x)) (gen_nifti_w_affine_3 (i_origin x) (i_spacing x) (i_dir x)) None
+    = Some (lps_to_ras_affine D (i_origin x) (i_spacing x) (i_dir x)) ->
+  nifti_r_status L D (i_chan x) = ROk ->
+  exists f, write_nifti D x = Some f /\ read_nifti f = Some x.
+Proof. exact nifti_roundtrip_cond. Qed.
+Print Assumptions C18_nifti_roundtrip_conditional.
+
 Theorem C18_nifti_read_itk_vector_refuted :
   forall (K : fld) (A : Type) (D : nat) (x : image K A),
   D = 2%nat \/ D = 3%nat -> (2 <= i_chan x)%nat -> read_nifti (itk_write_nii D x) = None.
